@@ -56,7 +56,7 @@ TripleFails(c, e) ==
                    THEN {<<"triangle", IF c.prec = "float" THEN "float" ELSE TriTag(all)>>} ELSE {})
              \cup (IF c.extChecked /\ \E i \in 1..Len(ds) : ~WithinExtent(ds[i], c.ext, tol)
                    THEN {<<"extent", "">>} ELSE {})
-             \cup (IF c.plain /\ ~WeightedSum(e.dab, e.parts, c.w, 8, tol) THEN {<<"compound-sum", "">>} ELSE {})
+             \cup (IF c.plain /\ ~WeightedSum(e.dab, e.parts, c.w, 16, tol) THEN {<<"compound-sum", "">>} ELSE {})
 
 InterpFails(c, e) ==
     LET tol == c.tol
